@@ -147,7 +147,7 @@ def check_stop_region(view, bs, start, s, rule, what_prefix, seed_locals, seed_p
             reached_return = True
             if 0 not in tn:
                 out.append(finding(rule, view, "%s: the value returned does not carry the stopped error" % what_prefix, bb))
-            elif view.b.kind != "Closure" and kn.get(0) not in ("Err", None) :
+            elif view.b.kind != "Closure" and kn.get(0) not in ("Err", "Break", None) :   # (a helper answering ControlFlow::Break hands the stop on)
                 out.append(finding(rule, view, "%s: the value returned is not an Err" % what_prefix, bb))
             elif view.b.kind == "Closure" and kn.get(0) == "Continue":
                 # the function of a `try_fold` / `try_for_each`: answering Continue asks for the next item
@@ -242,9 +242,16 @@ def c03_rules(view, bs):
             if s.brk is None:
                 out.append(finding("C03.BREAK", view, "%s has no Break edge" % site_desc(view, s), s.bb))
                 continue
+            # what is switched on holds the stopped error on the Break edge (it may be a variable that several report sites
+            # assign: `let answer = match .. { .. => E::merge(..), .. => E::error(..) }; match answer { .. }`)
+            subj = []
+            if s.sw_bb is not None:
+                i_ = view.switch_info(s.sw_bb)
+                if i_ and i_["kind"] == "discr" and i_["place"] is not None and not i_["place"]["p"]:
+                    subj = [i_["place"]["l"]]
             out += check_stop_region(view, bs, s.brk, s, "C03.BREAK",
                                      "after a Break answer of the %s" % site_desc(view, s),
-                                     [], break_payload_pred(view, s))
+                                     subj, break_payload_pred(view, s))
         elif s.handling == "collapsed":
             obligations += 1
             tgt = view.blocks[s.collapse_bb]["term"].get("target")
